@@ -51,6 +51,54 @@ impl Filter for DumpFilter {
     }
 }
 
+// `probe` filter: stores the structural form of its input in a thread-local slot and passes the
+// value through unchanged (structural observation without any hook in /repo).
+
+thread_local! {
+    static PROBED: std::cell::RefCell<Option<RV>> = const { std::cell::RefCell::new(None) };
+}
+
+#[derive(Clone, Copy, Debug)]
+pub struct Probe;
+
+impl FilterReflection for Probe {
+    fn name(&self) -> &str {
+        "probe"
+    }
+    fn description(&self) -> &str {
+        "harness: structural probe"
+    }
+    fn positional_parameters(&self) -> &'static [ParameterReflection] {
+        &[]
+    }
+    fn keyword_parameters(&self) -> &'static [ParameterReflection] {
+        &[]
+    }
+}
+
+impl ParseFilter for Probe {
+    fn parse(&self, _args: FilterArguments<'_>) -> liquid_core::Result<Box<dyn Filter>> {
+        Ok(Box::new(ProbeFilter))
+    }
+    fn reflection(&self) -> &dyn FilterReflection {
+        self
+    }
+}
+
+#[derive(Debug)]
+struct ProbeFilter;
+impl fmt::Display for ProbeFilter {
+    fn fmt(&self, f: &mut fmt::Formatter<'_>) -> fmt::Result {
+        write!(f, "probe")
+    }
+}
+impl Filter for ProbeFilter {
+    fn evaluate(&self, input: &dyn ValueView, _rt: &dyn Runtime) -> liquid_core::Result<Value> {
+        PROBED.with(|p| *p.borrow_mut() = Some(from_view(input)));
+        Ok(input.to_value())
+    }
+}
+
 // ---------------------------------------------------------------------------------------------
 // parser configurations
 
@@ -77,8 +125,8 @@ pub fn add_extras<P: PartialCompiler>(b: ParserBuilder<P>) -> ParserBuilder<P> {
 
 pub fn builder(conf: Conf) -> ParserBuilder {
     match conf {
-        Conf::Stdlib => ParserBuilder::with_stdlib().filter(Dump),
-        Conf::Full => add_extras(ParserBuilder::with_stdlib()).filter(Dump),
+        Conf::Stdlib => ParserBuilder::with_stdlib().filter(Dump).filter(Probe),
+        Conf::Full => add_extras(ParserBuilder::with_stdlib()).filter(Dump).filter(Probe),
         Conf::Empty => ParserBuilder::new(),
     }
 }
@@ -121,7 +169,7 @@ fn source(partials: &[(String, String)]) -> InMemorySource {
 /// Build a stdlib(+dump) parser with the given partial sources under a compilation policy.
 pub fn parser_with_partials(policy: Policy, partials: &[(String, String)]) -> Result<Result<Parser, String>, Panicked> {
     guard(|| {
-        let b = ParserBuilder::with_stdlib().filter(Dump);
+        let b = ParserBuilder::with_stdlib().filter(Dump).filter(Probe);
         let r = match policy {
             Policy::Eager => b.partials(EagerCompiler::new(source(partials))).build(),
             Policy::Lazy => b.partials(LazyCompiler::new(source(partials))).build(),
@@ -162,5 +210,78 @@ pub fn show(r: &R<String>) -> String {
         Ok(Ok(s)) => format!("Ok({s:?})"),
         Ok(Err(e)) => format!("Err({:?})", e.lines().next().unwrap_or("")),
         Err(p) => format!("PANIC({})", p.what),
+    }
+}
+
+
+// ---------------------------------------------------------------------------------------------
+// filter application through real templates: `{{ v | NAME: a0, a1 | probe }}` with v, a0, a1
+// passed as globals (no quoting limits); templates are cached per (conf, filter, arity).
+
+thread_local! {
+    static FILTER_TEMPLATES: std::cell::RefCell<std::collections::HashMap<(Conf, String, usize), Result<std::rc::Rc<Template>, String>>> = std::cell::RefCell::new(std::collections::HashMap::new());
+}
+
+pub fn filter_source(name: &str, arity: usize) -> String {
+    let args: Vec<String> = (0..arity).map(|i| format!("a{i}")).collect();
+    if arity == 0 {
+        format!("{{{{ v | {name} | probe }}}}")
+    } else {
+        format!("{{{{ v | {name}: {} | probe }}}}", args.join(", "))
+    }
+}
+
+/// Apply a filter; Ok(Ok(value)) / Ok(Err(parse-or-render error)) / Err(panic).
+pub fn apply(conf: Conf, name: &str, input: &RV, args: &[RV]) -> R<RV> {
+    let key = (conf, name.to_string(), args.len());
+    let tpl = FILTER_TEMPLATES.with(|c| {
+        let mut c = c.borrow_mut();
+        if let Some(t) = c.get(&key) {
+            return Ok(t.clone());
+        }
+        let src = filter_source(name, args.len());
+        let t = with_parser(conf, |p| parse(p, &src))?;
+        let t = t.map(std::rc::Rc::new).map_err(|e| format!("parse: {e}"));
+        c.insert(key.clone(), t.clone());
+        Ok(t)
+    })?;
+    let tpl = match tpl {
+        Ok(t) => t,
+        Err(e) => return Ok(Err(e)),
+    };
+    let mut g = liquid::Object::new();
+    g.insert("v".into(), input.to_value());
+    for (i, a) in args.iter().enumerate() {
+        g.insert(format!("a{i}").into(), a.to_value());
+    }
+    PROBED.with(|p| *p.borrow_mut() = None);
+    match render(&tpl, &g)? {
+        Err(e) => Ok(Err(format!("render: {e}"))),
+        Ok(_) => Ok(PROBED.with(|p| p.borrow_mut().take()).ok_or_else(|| "probe not reached".to_string())),
+    }
+}
+
+/// Apply a chain of filters left to right in ONE template.
+pub fn apply_chain(conf: Conf, chain: &[(String, Vec<RV>)], input: &RV) -> R<RV> {
+    let mut src = String::from("{{ v");
+    let mut g = liquid::Object::new();
+    g.insert("v".into(), input.to_value());
+    let mut n = 0;
+    for (name, args) in chain {
+        src.push_str(" | ");
+        src.push_str(name);
+        for (i, a) in args.iter().enumerate() {
+            src.push_str(if i == 0 { ": " } else { ", " });
+            src.push_str(&format!("a{n}"));
+            g.insert(format!("a{n}").into(), a.to_value());
+            n += 1;
+        }
+    }
+    src.push_str(" | probe }}");
+    PROBED.with(|p| *p.borrow_mut() = None);
+    let r = with_parser(conf, |p| run(p, &src, &g))?;
+    match r {
+        Err(e) => Ok(Err(e)),
+        Ok(_) => Ok(PROBED.with(|p| p.borrow_mut().take()).ok_or_else(|| "probe not reached".to_string())),
     }
 }
